@@ -12,6 +12,8 @@ Static clauses (typestate: "a ref enters `ignore` before the selector is used ag
   NOFILTER    compile_inputs flattens the bound sets without de-duplicating or filtering adaptors
   (forms)     S-IGNORE follows the selection into an awaited private helper, accepts a growth of the taken refs in a loop that is
               only left when its iterator is exhausted, and reports a growth inside a short-circuiting adaptor's closure
+  S-POOLS     what input blocks took and what backs the collateral are remembered apart (collateral memory = the field the
+              collateral entry point grows): nothing derived from a collateral selection lands in an input memory, or vice versa
 Not decided: that the store returns what it was asked for (trusted interface).
 """
 import re
